@@ -336,11 +336,14 @@ class Exec:
         if c is None or not c.ghost_on or self.cur_fnode is not self.fnode:
             return
         for meth, var, updates in c.ghost_on:
-            if meth != method or var not in self.names:
+            if meth != method:
                 continue
-            tgt = self.resolve(self.names[var])
-            if not (tgt.root == path.root):
-                continue
+            if var is not None:
+                if var not in self.names or path is None:
+                    continue
+                tgt = self.resolve(self.names[var])
+                if not (tgt.root == path.root):
+                    continue
             env = S.Env(self, self.store, dict(self.names), self.this_path, {})
             extra = dict(self.spec_lets)
             extra['arg'] = args[0] if args else None
